@@ -47,8 +47,8 @@ func checkC01(c *core.Ctx) {
 	clauseEvalRule(c, rC01Eval, "semi-naive")
 	c.Rule(rC01Rewrite, "what analysis hands to the evaluator has the meaning of what was written: RewriteClause and CheckRule, read from source and evaluated on every clause of one to three premises over head h(X,Y) (the family of C04), return a permutation of the premises, accept only clauses that are safe in the resulting order, and every accepted clause evaluates without error to ground facts (obligations shared with C04)", 2)
 	c.Under(rC01Rewrite, []string{rC04Perm, rC04Safe, rC04Eval}, func() {
-		c04OnlyHead = 1
-		defer func() { c04OnlyHead = -1 }()
+		c04OnlyHead, c04FnClass = 1, false // the function-argument class is C04's finding, not repeated here
+		defer func() { c04OnlyHead, c04FnClass = -1, true }()
 		c04Corpus(c)
 	})
 }
